@@ -247,6 +247,7 @@ func (fm *Server) Mount(ctx context.Context, req *pb.MountRequest) (*pb.Response
 		return &pb.Response{}, err
 	}
 
+	verifPoint(ctx, "mount.record")
 	fm.storeFuseInfo(&fuseInfo{
 		Root:       fm.root,
 		Mountpoint: req.Mountpoint,
@@ -323,7 +324,9 @@ func (fm *Server) Unmount(ctx context.Context, req *pb.UnmountRequest) (*pb.Resp
 		return &pb.Response{}, err
 	}
 
+	verifPoint(ctx, "unmount.table")
 	fm.fsMap.Delete(req.Mountpoint)
+	verifPoint(ctx, "unmount.record")
 	fm.removeFuseInfo(&fuseInfo{
 		Mountpoint: req.Mountpoint,
 	})
@@ -367,6 +370,7 @@ func (fm *Server) mount(ctx context.Context, mountpoint string, labels map[strin
 		return err
 	}
 
+	verifPoint(ctx, "mount.table")
 	fm.fsMap.Store(mountpoint, fm.curFs)
 	return nil
 }
